@@ -33,5 +33,12 @@ class PyClockProcess(BaseProcess):
 
         else:
             clk_state = self.state.slots[self.slot]
-            clk_state.update(not clk_state.curr)
-            self.state.set_delay_waker(self.period // 2, waker)
+            level = not clk_state.curr
+            clk_state.update(level)
+            # The period is an integer number of femtoseconds and may be odd, in which case the two
+            # halves cannot be equal; make them add up to the period exactly, so that the clock does
+            # not run faster than requested.
+            if level:
+                self.state.set_delay_waker(self.period // 2, waker)
+            else:
+                self.state.set_delay_waker(self.period - self.period // 2, waker)
